@@ -35,7 +35,7 @@ impl SortAggExecutor {
                     last_keys = Some(keys.values().collect());
                     states = Evaluator::new(&self.aggs).init_agg_states();
                 }
-                Evaluator::new(&self.aggs).agg_list_append(&mut states, args_chunk.row(i).values());
+                Evaluator::new(&self.aggs).agg_list_append(&mut states, args_chunk.row(i).values())?;
             }
         }
         if let Some(keys) = last_keys.take() {
